@@ -44,7 +44,7 @@ ASSUMPTIONS = ["configurations are parsed with syntax='asa', factory=True",
 ACL_TAILS = ["extended permit ip any any", "extended deny ip any any log", "extended permit tcp any any eq 80",
              "standard permit 192.0.2.0 255.255.255.0", "remark some words here", "extended permit ip any any log disable"]
 MASKS = ["255.255.255.0", "255.255.0.0", "255.255.255.252", "255.0.0.0", "255.255.255.255", "255.255.255.255", "255.255.255.128"]
-GROUP_NAMES = ["G1", "G10", "G", "WEB", "WEB_DMZ", "ALL_WEB_DMZ", "DB", "XDBX", "INSIDE", "INSIDE_addrs", "srv"]
+GROUP_NAMES = ["G1", "G10", "G", "WEB", "WEB_DMZ", "ALL_WEB_DMZ", "DB", "XDBX", "INSIDE", "INSIDE_addrs", "srv", "DMZ", "DMZ.web", "a.b-c", "net+1", "x:y"]
 NOISE = [["!"], ["hostname fw01"], ["interface Ethernet0/0", " nameif OUTSIDE", " ip address 198.51.100.1 255.255.255.0"],
          ["object-group service SVC1 tcp", " port-object eq 80", " port-object range 1 5"],
          ["object network OBJ1", " host 192.0.2.77"], ["names"], ["object-group protocol P1", " protocol-object tcp"],
